@@ -497,14 +497,17 @@ func generateMore(corpus bool) {
 			t.MarshalStream(&c)
 			m := payload(&c)
 			// top packet: ID 0, job 1-2, tag count 3-4, flags 5..12 (len 5-6, position 7-8, group 9-10, bits 11-12), device 13..44, body prefix 45..
-			pos := []int{0, 4, 5, 6, 8, 10, 11, 12, 13, 45, 46}
+			pos := []int{0, 5, 6, 12, 13, 45, 46}
 			if i >= 14 {
 				// first sub-packet: starts behind the body prefix (1 or 2 length bytes)
 				b := 47
 				if len(m) > 47+255 {
 					b = 48
 				}
-				pos = append(pos, b, b+3, b+4, b+5, b+6, b+8, b+10, b+11, b+12, b+13, b+45, b+46)
+				pos = append(pos, b, b+4, b+5, b+6, b+12, b+13, b+45, b+46)
+			}
+			if thorough {
+				pos = append(pos, 4, 8, 10, 11)
 			}
 			derive("recv", m, pos)
 		}
